@@ -1,7 +1,7 @@
 (* Gen/LookupInstThm.v -- facts about the tables regenerated from /repo (Generated/Gen_Lookup.v) and the general C16 theorems
    instantiated with them.  The boolean facts are closed by vm_compute on the CURRENT tables: a change of the pydsdl hierarchy,
    of a built-in template set, of the bundled jinja2 test names, of a language's tests or of the alias rule re-runs them. *)
-From Verif Require Import Str Lookup LookupThm LookupEnv Gen_Lookup LookupInst.
+From Verif Require Import Str Lookup LookupThm LookupEnv LookupEnvThm Gen_Lookup LookupInst.
 Import ListNotations.
 Open Scope N_scope.
 
@@ -12,6 +12,8 @@ Lemma builtin_stems_nodup_true : builtin_stems_nodup = true.     Proof. vm_compu
 Lemma aliases_collision_free_true : aliases_collision_freeb = true. Proof. vm_compute. reflexivity. Qed.
 Lemma aliases_disjoint_true : aliases_disjointb = true.          Proof. vm_compute. reflexivity. Qed.
 Lemma families_disjoint_true : families_disjointb = true.        Proof. vm_compute. reflexivity. Qed.
+Lemma class_names_index_true : class_names_index_ok = true.      Proof. vm_compute. reflexivity. Qed.
+Lemma gate_checks_existing_true : g_gate_checks_existing = true. Proof. reflexivity. Qed.
 
 Lemma tbl_get_In {A} (l : list (N * A)) k v : tbl_get l k = Some v -> In (k, v) l.
 Proof.
@@ -60,13 +62,47 @@ Proof. apply (chain_fuel p_bases p_rank p_rank_ok). pose proof (p_rank_fuel c). 
 Lemma p_lookup_nearest q pol dirs pkg c : p_lookup_seq q pol dirs pkg [c] = p_spec_seq pol dirs pkg [c].
 Proof.
   unfold p_lookup_seq, p_spec_seq. destruct (mk_loaders pol dirs pkg) as [fs pk]. cbn [run_seq map].
-  pose proof (cold_lookup p_bases p_rank p_single p_rank_ok q (option_map (tmap p_name) fs) (option_map (tmap p_name) pk)
-                          p_fuel c (p_rank_fuel c)) as H.
-  match goal with |- context [type_to_template ?a ?b ?f ?g ?e ?s ?x] =>
-    change (type_to_template a b f g e s x) with (type_to_template a b f g e st0 x) end.
-  destruct (type_to_template p_bases q (option_map (tmap p_name) fs) (option_map (tmap p_name) pk) p_fuel st0 c) as [st r].
+  pose proof (cold_lookup p_bases p_rank p_single p_rank_ok q (p_index fs) (p_index pk) p_fuel c (p_rank_fuel c)) as H.
+  unfold st0 in H.
+  destruct (type_to_template p_bases q (p_index fs) (p_index pk) p_fuel [] c) as [st r].
   cbn [snd] in H. rewrite H. unfold spec. rewrite p_chain. reflexivity.
 Qed.
+
+(* the code as it is (memo keyed by (walk, class)): EVERY sequence of lookups on the real hierarchy, any raw listings, either
+   policy, returns the nearest-ancestor result at every position *)
+Lemma p_cache_transparent pol dirs pkg cs : p_lookup_seq false pol dirs pkg cs = p_spec_seq pol dirs pkg cs.
+Proof.
+  unfold p_lookup_seq, p_spec_seq. destruct (mk_loaders pol dirs pkg) as [fs pk].
+  transitivity (map (spec p_bases p_rank (p_index fs) (p_index pk)) cs).
+  { apply (run_seq_sep p_bases p_rank p_single p_rank_ok _ _ p_fuel cs st0 (fun c _ => p_rank_fuel c) (inv_sep_nil _ _)). }
+  apply map_ext. intros c. unfold spec. rewrite p_chain. reflexivity.
+Qed.
+
+(* only a file whose name is exactly <ClassName><TEMPLATE_SUFFIX> can be the template of a class *)
+Lemma p_only_exact_names listing c p : tmap p_name (p_tset listing) c = Some p ->
+  In p listing /\ basename p = p_name c ++ g_template_suffix.
+Proof. unfold tmap, p_tset. apply mk_tset_exact. discriminate. Qed.
+
+(* T2-translated _field_is_instance = membership of the value, or of an attribute's data type *)
+Lemma g_field_is_instance_spec isinst attr root vc vdt :
+  g_field_is_instance isinst attr root vc vdt = isinst vc root || (isinst vc attr && isinst vdt root).
+Proof. unfold g_field_is_instance. destruct (isinst vc attr), (isinst vc root), (isinst vdt root); reflexivity. Qed.
+
+Lemma p_test_agrees name v : p_test false name v = p_test_spec name v.
+Proof.
+  unfold p_test, p_test_spec. destruct (aget p_tests name) as [root|]; [|reflexivity].
+  rewrite g_field_is_instance_spec. reflexivity.
+Qed.
+
+(* T2-translated gate of additional_globals: jinja's default globals survive every additional_globals that is accepted *)
+Lemma p_user_global_never_shadows lang user g n :
+  init_globals p_gate_unchecked g_jinja_globals p_reserved g_init_written lang user = Some g ->
+  str_in n g_jinja_globals = true -> str_in n g_init_written = false -> str_in n lang = false -> dget g n = Some OBuiltin.
+Proof. unfold p_gate_unchecked. rewrite gate_checks_existing_true. apply builtin_globals_protected_checked. Qed.
+
+Lemma p_builtin_global_rejected lang n v : str_in n g_jinja_globals = true ->
+  init_globals p_gate_unchecked g_jinja_globals p_reserved g_init_written lang [(n, v)] = None.
+Proof. unfold p_gate_unchecked. rewrite gate_checks_existing_true. apply user_global_rejected_checked. Qed.
 
 (* antichainb t = true  ->  the Prop used by the general theorem *)
 Lemma antichainb_sound t : aget t [] = None -> antichainb t = true -> antichain p_bases p_rank (tmap p_name t).
@@ -90,17 +126,20 @@ Proof. vm_compute. reflexivity. Qed.
 
 (* every sequence of lookups against a SHIPPED built-in template set, any user directory listing, either policy, the shared
    memo of the unchanged code: every result is the nearest-ancestor result *)
-Lemma p_shipped_transparent lang t pol dirs cs : In (lang, t) g_builtin_templates ->
-  p_lookup_seq true pol dirs (Some t) cs = p_spec_seq pol dirs (Some t) cs.
+Lemma p_shipped_transparent lang l pol dirs cs : In (lang, l) g_builtin_listings ->
+  p_lookup_seq true pol dirs (Some l) cs = p_spec_seq pol dirs (Some l) cs.
 Proof.
-  intros Hin. pose proof shipped_sets_ok as S. rewrite forallb_forall in S. specialize (S _ Hin). cbn [snd] in S.
+  intros Hin0. set (t := p_tset l).
+  assert (Hin : In (lang, t) g_builtin_templates).
+  { unfold g_builtin_templates. apply in_map_iff. exists (lang, l). split; [reflexivity | exact Hin0]. }
+  pose proof shipped_sets_ok as S. rewrite forallb_forall in S. specialize (S _ Hin). cbn [snd] in S.
   unfold shipped_ok in S. apply andb_prop in S. destruct S as [S1 S2].
   assert (E : aget t [] = None) by (destruct (aget t []); [discriminate S2 | reflexivity]).
-  unfold p_lookup_seq, p_spec_seq. destruct (mk_loaders pol dirs (Some t)) as [fs pk] eqn:ML.
-  assert (Hok : transparent_cond p_bases p_rank (option_map (tmap p_name) fs) (option_map (tmap p_name) pk)).
-  { unfold mk_loaders in ML. destruct pol, dirs as [d|]; inversion ML; subst; cbn [option_map];
+  unfold p_lookup_seq, p_spec_seq. destruct (mk_loaders pol dirs (Some l)) as [fs pk] eqn:ML.
+  assert (Hok : transparent_cond p_bases p_rank (p_index fs) (p_index pk)).
+  { unfold mk_loaders in ML. destruct pol, dirs as [d|]; inversion ML; subst; unfold p_index; cbn [option_map];
       try (right; left; reflexivity); try (left; reflexivity); right; right; apply antichainb_sound; assumption. }
-  transitivity (map (spec p_bases p_rank (option_map (tmap p_name) fs) (option_map (tmap p_name) pk)) cs).
-  { apply (run_seq_sh p_bases p_rank p_single p_rank_ok _ _ p_fuel Hok cs [] [] (fun c _ => p_rank_fuel c) (inv_sh_nil _ _ _ _)). }
+  transitivity (map (spec p_bases p_rank (p_index fs) (p_index pk)) cs).
+  { apply (run_seq_sh p_bases p_rank p_single p_rank_ok _ _ p_fuel Hok cs st0 (fun c _ => p_rank_fuel c) (inv_sh_nil _ _ _ _)). }
   apply map_ext. intros c. unfold spec. rewrite p_chain. reflexivity.
 Qed.
